@@ -196,3 +196,14 @@ func SafeDo(do func(context.Context, packet.Request) (packet.Response, error), c
 type PanicError struct{ Value string }
 
 func (p *PanicError) Error() string { return "PANIC inside the request call: " + p.Value }
+
+// SetField sets an exported unsigned-integer field of the request (reached through embedded structs too), if it has one.
+func SetField(req packet.Request, name string, v uint64) {
+	rv := reflect.ValueOf(req)
+	if rv.Kind() == reflect.Ptr && !rv.IsNil() {
+		f := rv.Elem().FieldByName(name)
+		if f.IsValid() && f.CanSet() && f.Kind() >= reflect.Uint && f.Kind() <= reflect.Uint64 {
+			f.SetUint(v)
+		}
+	}
+}
